@@ -49,3 +49,94 @@ pub(crate) fn emit(ev: Event) {
         }
     });
 }
+
+/// API-level call log (written only when the environment variable `NDINTERP_VERIF_TRACE` names a file): one JSON
+/// line per strategy build and per answered strategy evaluation, numbers in their `Debug` form (which round-trips). The
+/// conformance machinery in /verif converts these lines into its trace format and validates them against the TLA+
+/// trace specification - this is how the executions of the crate's OWN test suite are checked against the spec.
+pub mod api {
+    use std::fmt::Debug;
+    use std::io::Write;
+    use std::sync::Mutex;
+
+    static OUT: Mutex<Option<Option<std::fs::File>>> = Mutex::new(None);
+
+    /// is the call log switched on for this process?
+    pub fn enabled() -> bool {
+        let mut g = OUT.lock().unwrap_or_else(|e| e.into_inner());
+        if g.is_none() {
+            *g = Some(std::env::var_os("NDINTERP_VERIF_TRACE").and_then(|p| {
+                std::fs::OpenOptions::new().create(true).append(true).open(p).ok()
+            }));
+        }
+        matches!(&*g, Some(Some(_)))
+    }
+
+    /// append one line (whole lines are written under the lock, so concurrent tests do not interleave)
+    pub fn emit(line: String) {
+        let mut g = OUT.lock().unwrap_or_else(|e| e.into_inner());
+        if let Some(Some(f)) = g.as_mut() {
+            let _ = f.write_all(format!("{line}\n").as_bytes());
+        }
+    }
+
+    /// JSON array of the `Debug` forms of the items
+    pub fn seq<T: Debug>(it: impl Iterator<Item = T>) -> String {
+        let v: Vec<String> = it.map(|x| format!("\"{x:?}\"")).collect();
+        format!("[{}]", v.join(","))
+    }
+
+    /// JSON array of a shape
+    pub fn shape(s: &[usize]) -> String {
+        let v: Vec<String> = s.iter().map(|x| x.to_string()).collect();
+        format!("[{}]", v.join(","))
+    }
+
+    /// one evaluation of a 1-D strategy: the query and what the target holds afterwards (`None`: rejected)
+    pub fn query1<T: Debug, S: ndarray::Data<Elem = T>, D: ndarray::Dimension>(
+        key: &str,
+        x: &T,
+        target: Option<&ndarray::ArrayBase<S, D>>,
+    ) {
+        if !enabled() {
+            return;
+        }
+        match target {
+            Some(t) => emit(format!(
+                "{{\"ev\":\"Q1\",\"key\":\"{key}\",\"q\":\"{x:?}\",\"ts\":{},\"tv\":{},\"out\":\"Ok\"}}",
+                shape(t.shape()),
+                seq(t.iter())
+            )),
+            None => emit(format!(
+                "{{\"ev\":\"Q1\",\"key\":\"{key}\",\"q\":\"{x:?}\",\"out\":\"Err:OutOfBounds\"}}"
+            )),
+        }
+    }
+
+    /// one evaluation of a 2-D strategy
+    pub fn query2<T: Debug, S: ndarray::Data<Elem = T>, D: ndarray::Dimension>(
+        key: &str,
+        x: &T,
+        y: &T,
+        target: Option<&ndarray::ArrayBase<S, D>>,
+    ) {
+        if !enabled() {
+            return;
+        }
+        match target {
+            Some(t) => emit(format!(
+                "{{\"ev\":\"Q2\",\"key\":\"{key}\",\"q\":\"{x:?}\",\"q2\":\"{y:?}\",\"ts\":{},\"tv\":{},\"out\":\"Ok\"}}",
+                shape(t.shape()),
+                seq(t.iter())
+            )),
+            None => emit(format!(
+                "{{\"ev\":\"Q2\",\"key\":\"{key}\",\"q\":\"{x:?}\",\"q2\":\"{y:?}\",\"out\":\"Err:OutOfBounds\"}}"
+            )),
+        }
+    }
+
+    /// the name of a type without its module path
+    pub fn tname<T: ?Sized>() -> &'static str {
+        core::any::type_name::<T>()
+    }
+}
